@@ -217,6 +217,37 @@ fn run_case(ctx: &mut Ctx, rng: &mut Rng, x: &Series, all_lags: bool) {
     for (lo, hi) in bounds {
         let want = o_clip(x, lo, hi);
         let (ln, hn) = (lo.unwrap_or(f64::NAN), hi.unwrap_or(f64::NAN));
+        if matches!((lo, hi), (Some(l), Some(h)) if l > h) {
+            // crossed bounds: C13 fixes only that clip acts on each element alone and leaves nulls
+            // null (idempotence / containment are claimed for lower <= upper); which bound wins is
+            // open (the library: lower below it, numpy: always upper). Judged: length, nulls stay
+            // null, every other element is the element itself or one of the two bounds.
+            let (l, h) = (lo.unwrap(), hi.unwrap());
+            for (label, got) in [("vec<f64>", catch(|| dec(xf.titer().vclip(ln, hn).collect()))), ("vec<opt f64>", catch(|| xo.titer().vclip(lo, hi).collect()))] {
+                ctx.evaluations += 1;
+                match got {
+                    Err(p) => ctx.violation(&format!("vclip/panic/{}", panic_key(&p)), || format!("{p}; vclip({lo:?}, {hi:?}) x={xs}")),
+                    Ok(g) => {
+                        ctx.events += g.len() as u64;
+                        let bad = if g.len() != len {
+                            Some(usize::MAX)
+                        } else {
+                            (0..len).find(|&i| match (x[i], g[i]) {
+                                (None, None) => false,
+                                (Some(v), Some(r)) => !(r == v || r == l || r == h),
+                                _ => true,
+                            })
+                        };
+                        match bad {
+                            None => ctx.count("ok.vclip_crossed_bounds"),
+                            Some(usize::MAX) => ctx.violation("vclip/length", || format!("{} elements for {len}; vclip({lo:?}, {hi:?}) x={xs}", g.len())),
+                            Some(i) => ctx.violation(&format!("vclip/crossed_bounds/{label}"), || format!("element {i}: {:?} becomes {:?} (neither itself nor a bound, or null status changed); vclip({lo:?}, {hi:?}) x={xs}", x[i], g[i])),
+                        }
+                    },
+                }
+            }
+            continue;
+        }
         judge(ctx, "vclip", "vec<f64>", &|| format!("vclip({lo:?}, {hi:?}) x={xs}"), catch(|| dec(xf.titer().vclip(ln, hn).collect())), &want);
         judge(ctx, "vclip", "vec<opt f64>", &|| format!("vclip({lo:?}, {hi:?}) x={xs}"), catch(|| xo.titer().vclip(lo, hi).collect()), &want);
         // idempotence and containment for lower <= upper
